@@ -3,7 +3,7 @@ CONSTANTS
   MaxRestarts = 1
   MaxEvals = 2
   WithForks = TRUE
-  CacheByHeight = TRUE
+  CacheByHeight = FALSE
   ExportOn = TRUE
 INIT Init
 NEXT Next
